@@ -393,6 +393,12 @@ def run_lock(rep, scens, family, probe_pct=25, max_steps=600, salt=0, judge=None
             steps = [ln for ln in m if ln[:2] in ("S ", "F ", "P ")]
             probes = sum(1 for ln in m if ln.startswith("P "))
             rep.coverage["lock_steps"] = rep.coverage.get("lock_steps", 0) + len(steps)
+            # which park points (model program counters) the lockstep runs of this check reached
+            labs = rep.coverage.setdefault("park_labels_exercised", {})
+            for ln in steps:
+                w_ = ln.split()
+                if len(w_) >= 3 and w_[0] in ("S", "F"):
+                    labs[w_[2]] = labs.get(w_[2], 0) + 1
             rep.coverage["probes"] = rep.coverage.get("probes", 0) + probes
             rep.distinct.add((family, hash(tuple(m))))
             if len(rep.coverage["samples"]) < 5 and rep.coverage["evaluations"] % 41 == 1:
